@@ -2,16 +2,13 @@
    Property theorems only; proofs live in Proofs/*.v.
    Model: Model/Values.v (descriptors of validators.py over message byte images), Model/Floats.v (IEEE-754 via
    Flocq), Model/Flag.v (disable_message_validation).  Tables/guards: Gen/ValidatorTbl.v (regenerated from /repo).
-   Spec-side definitions (domain, normal form, exclusions): Spec/ValSpec.v.
+   Spec-side definitions (domain, normal form): Spec/ValSpec.v.
 
-   Two parts of the property are FALSE of the current code; for each the full statement is kept visible, a
-   witness is proved (_refuted) and the statement is proved under a decidable exclusion (_partial):
-     * float ARRAYS: validate_many converts only Python's max()/min(); a NaN in FIRST position makes both NaN, so
-       [nan, 1e39] is accepted (stored as [nan, inf]) and [nan, 10**400] raises OverflowError after the first
-       element has been written.  Exclusion: [excl] = "the sequence assigned to a float array does not start
-       with NaN" (for every other field type [excl] is true).
-     * the validation flag is not restored when a disable block is left through an exception.
-       Exclusion: [no_exit_exc]. *)
+   History: on the tree first examined two parts of the property were false (float-array validation looked only
+   at max()/min(), so a leading NaN masked an overflowing element and a slice write could stop half-way; the
+   validation flag was not restored when a disable block was left by exception).  Both were repaired in /repo
+   (known_findings.d/values.txt, `fixed:` lines); the model follows the repaired code and the statements below
+   are proved in full, without exclusions. *)
 From Coq Require Import ZArith List Bool Lia Reals.
 From Flocq Require Import Core.Core IEEE754.BinarySingleNaN IEEE754.Binary IEEE754.Bits.
 From Val Require Import Gen.ValidatorTbl Model.Bytes Model.Floats Model.Values Model.Flag Spec.ValSpec
@@ -21,7 +18,7 @@ Import ListNotations.
 Open Scope Z_scope.
 
 (* The regenerated table is sane: every integer validator's range is exactly the range of its ctypes type,
-   _size/_unsigned agree with it, Float/Double are c_float/c_double, Char is one c_char. *)
+   Float/Double are c_float/c_double, Char is one c_char. *)
 Theorem C09_table_ok : gen_ok = true.
 Proof. vm_compute. reflexivity. Qed.
 
@@ -36,20 +33,11 @@ Theorem C09_extent : forall en f k m v, ftype_ok (f_ty f) = true -> wf_field f m
   forall j, (j < f_off f \/ f_off f + fsize (f_ty f) <= j)%nat -> nth j (snd (set en f k m v)) 0 = nth j m 0.
 Proof. intros. exact (set_frame en f k m v H H0). Qed.
 
-(* Atomicity.  FULL STATEMENT (false for float arrays, see C09_atomic_refuted):
-     forall f k m v e m', ftype_ok (f_ty f) = true -> set true f k m v = (Some e, m') -> m' = m.
+(* Atomicity: a validated assignment that raises leaves every byte of the message unchanged.
    Its content for sequences: once validation has passed, no element store of the ctypes slice write can fail. *)
-Theorem C09_atomic_partial : forall f k m v e m', ftype_ok (f_ty f) = true -> excl (f_ty f) v = true ->
+Theorem C09_atomic : forall f k m v e m', ftype_ok (f_ty f) = true ->
   set true f k m v = (Some e, m') -> m' = m.
-Proof. intros f k m v e m' H1 H2 H3. exact (set_atomic_full f k m v e m' H1 H2 H3). Qed.
-
-Theorem C09_atomic_refuted : exists f k m v e m',
-  ftype_ok (f_ty f) = true /\ wf_field f m /\ set true f k m v = (Some e, m') /\ m' <> m.
-Proof.
-  exists (mkField 0 (TArr (EFloat 8 v_Float) 2)), KAttr, [0;0;0;0;0;0;0;0],
-         (PList [PFloat canonical_nan64; PInt (10 ^ 400)]), EOverflowError, [0;0;192;127;0;0;0;0].
-  split; [reflexivity|]. split; [unfold wf_field; vm_compute; lia|]. split; [vm_compute; reflexivity|discriminate].
-Qed.
+Proof. intros f k m v e m' H1 H2. exact (set_atomic_full f k m v e m' H1 H2). Qed.
 
 (* Read-back: an accepted assignment reads back as the normal form of the value (ints exactly, floats through
    binary64 -> binary32 -> binary64, strings up to the first NUL). *)
@@ -83,23 +71,20 @@ Theorem C09_readback_sarr_whole : forall f cls esz n k m v m', f_ty f = TSArr cl
   exists items, iter_items v = Some items /\ get f k m' = inr (PList items).
 Proof. exact readback_sarr_seq. Qed.
 
-(* Refusal.  FULL STATEMENT (false for float arrays, see C09_refuse_refuted):
-     forall f k m v, ftype_ok (f_ty f) = true -> out_of_domain (f_ty f) k v = true -> fst (set true f k m v) <> None.
+(* Refusal: a value outside the field's domain always raises.
    out_of_domain (Spec/ValSpec.v): int out of the C range or not an int; finite float / int that rounds to
    +-infinity, non-number; string too long or non-ASCII or not a str; sequence of the wrong length or with an
-   out-of-domain element AT ANY POSITION; struct of another class. *)
-Theorem C09_refuse_partial : forall f k m v, ftype_ok (f_ty f) = true -> excl (f_ty f) v = true ->
+   out-of-domain element AT ANY POSITION and whatever surrounds it (NaN included); struct of another class. *)
+Theorem C09_refuse : forall f k m v, ftype_ok (f_ty f) = true ->
   out_of_domain (f_ty f) k v = true -> fst (set true f k m v) <> None.
 Proof. exact set_refuse_full. Qed.
 
-Theorem C09_refuse_refuted : exists f k m v,
-  ftype_ok (f_ty f) = true /\ wf_field f m /\ out_of_domain (f_ty f) k v = true /\ fst (set true f k m v) = None.
-Proof.
-  (* [nan, 1e39] into a Float array of length 2 *)
-  exists (mkField 0 (TArr (EFloat 8 v_Float) 2)), KAttr, [0;0;0;0;0;0;0;0],
-         (PList [PFloat canonical_nan64; PFloat 5190260616003865117]).
-  split; [reflexivity|]. split; [unfold wf_field; vm_compute; lia|]. split; vm_compute; reflexivity.
-Qed.
+(* the two inputs that defeated the old max()/min() check *)
+Example C09_ex_nan_neighbour :
+  let f := mkField 0 (TArr (EFloat 8 v_Float) 2) in let m := [0;0;0;0;0;0;0;0] in
+  set true f KAttr m (PList [PFloat canonical_nan64; PFloat 5190260616003865117]) = (Some EValueError, m) /\
+  set true f KAttr m (PList [PFloat canonical_nan64; PInt (10 ^ 400)]) = (Some EOverflowError, m).
+Proof. split; vm_compute; reflexivity. Qed.
 
 (* Floats: the model's conversion of a non-NaN double IS Flocq's round-to-nearest-even to binary32 ... *)
 Theorem C09_narrow_is_flocq : forall b, f64_is_nan b = false ->
@@ -125,19 +110,10 @@ Proof.
   cbn [out_of_domain ood_float is_cinst negb andb]. rewrite Hn, Hi, Hx. reflexivity.
 Qed.
 
-(* The validation flag.  FULL STATEMENT (false, see C09_flag_refuted):
-     forall t, well_nested t = true -> enabled t = spec_enabled t
-   (validation is on exactly when no disabling block is open). *)
-Theorem C09_flag_partial : forall t, well_nested t = true -> no_exit_exc t = true -> enabled t = spec_enabled t.
-Proof. exact flag_partial. Qed.
-
-Theorem C09_flag_refuted : exists t, well_nested t = true /\ spec_enabled t = true /\ enabled t = false.
-Proof. exists [Enter false; ExitExc]. repeat split; reflexivity. Qed.
-
-(* the defect is permanent: after an outermost block has been left by exception, validation stays off in that
-   context whatever follows *)
-Theorem C09_flag_stuck_off : forall t, enabled ([Enter false; ExitExc] ++ t) = false.
-Proof. exact flag_stuck_off. Qed.
+(* The validation flag: for every well-nested sequence of enter / exit / exit-by-exception events, validation
+   is on exactly when no disabling block is open - in particular after a block has been left by exception. *)
+Theorem C09_flag : forall t, well_nested t = true -> enabled t = spec_enabled t.
+Proof. exact flag_correct. Qed.
 
 (* a thread's flag depends on its own enter/exit events only (ContextVar semantics) *)
 Theorem C09_flag_threads_independent : forall tid t s, tprobes tid s t = fprobes (tget s tid) (project tid t).
@@ -162,18 +138,16 @@ Example C09_ex_slice :
   get f (KSlice None None (Some (-2))) [9;1;0;9;9;254;255;9] = inr (PList [PInt (-2); PInt 1]).
 Proof. repeat split; try reflexivity. unfold wf_field; vm_compute; lia. Qed.
 
-(* the exclusion is satisfiable by a float sequence that still contains a NaN and a maximal value *)
+(* a float sequence led by NaN: accepted when every element is representable, out of domain otherwise *)
 Example C09_ex_float_array :
   let f := mkField 0 (TArr (EFloat 8 v_Float) 3) in
-  let v := PList [PFloat 4609434218613702656; PFloat canonical_nan64; PFloat 5183643170566569984] in
-  excl (f_ty f) v = true /\ fst (set true f KAttr (repeat 0 12) v) = None /\
-  excl (f_ty f) (PList [PFloat 4609434218613702656; PFloat canonical_nan64; PFloat 5190260616003865117]) = true /\
-  fst (set true f KAttr (repeat 0 12) (PList [PFloat 4609434218613702656; PFloat canonical_nan64; PFloat 5190260616003865117]))
-    = Some EValueError.
-Proof. repeat split; vm_compute; reflexivity. Qed.
+  fst (set true f KAttr (repeat 0 12)
+         (PList [PFloat canonical_nan64; PFloat 4609434218613702656; PFloat 5183643170566569984])) = None /\
+  out_of_domain (f_ty f) KAttr (PList [PFloat canonical_nan64; PFloat 4609434218613702656; PFloat 5190260616003865117]) = true.
+Proof. split; vm_compute; reflexivity. Qed.
 
 Example C09_ex_flag :
-  let t := [Enter false; Enter true; Enter false; ExitNormal; ExitNormal] in
-  well_nested t = true /\ no_exit_exc t = true /\ enabled t = false /\
-  enabled (t ++ [ExitNormal]) = true.
+  let t := [Enter false; Enter true; Enter false; ExitExc; ExitNormal] in
+  well_nested t = true /\ enabled t = false /\ enabled (t ++ [ExitExc]) = true /\
+  enabled [Enter false; ExitExc] = true.
 Proof. repeat split; reflexivity. Qed.
